@@ -68,22 +68,29 @@ def downsampleDaily (ps : List Period) (bounds : List Int) : List (Option Rat) :
 inductive Cycle | monthly | bimonthly
   deriving DecidableEq, Repr
 
-/-- `(index[1:] - index[:-1]).days`: whole days, floored -/
-def lenDays (p : Period) : Int := (p.t1 - p.t0) / 1440
+/-- length of a billing period in whole days on the LOCAL WALL CLOCK
+(`(index[1:] - index[:-1]).days` of the timezone-naive index): `w0`, `w1` are wall-clock minutes -/
+def lenDays (w0 w1 : Int) : Int := (w1 - w0) / 1440
 
 def Cycle.maxDays : Cycle → Int
   | .monthly => 35
   | .bimonthly => 70
 
-def offCycle (c : Cycle) (p : Period) : Bool := lenDays p < 25 || lenDays p > c.maxDays
+def offCycle (c : Cycle) (days : Int) : Bool := days < 25 || days > c.maxDays
 
-/-- `clean_billing_data` (CalTRACK 2.2.3.4/5): off-cycle periods lose their value -/
-def cleanBilling (c : Cycle) (ps : List Period) : List Period :=
-  ps.map fun p => if offCycle c p then { p with v := none } else p
+/-- `clean_billing_data` (CalTRACK 2.2.3.4/5): off-cycle periods lose their value; every period comes
+with its length in calendar days -/
+def cleanBilling (c : Cycle) (ps : List (Period × Int)) : List Period :=
+  ps.map fun p => if offCycle c p.2 then { p.1 with v := none } else p.1
+
+/-- consecutive reads `(instant, wall-clock minute, value)` become periods with their calendar length -/
+def periodsW : List (Int × Int × Option Rat) → List (Period × Int)
+  | (t0, w0, v) :: (t1, w1, x) :: rest => (⟨t0, t1, v⟩, lenDays w0 w1) :: periodsW ((t1, w1, x) :: rest)
+  | _ => []
 
 /-- billing pipeline of `_BillingData._compute_meter_value_df` after the read calendar is fixed -/
-def billingDaily (c : Cycle) (reads : List (Int × Option Rat)) (bounds : List Int) : List (Option Rat) :=
-  asFreqDaily (cleanBilling c (periods reads)) bounds
+def billingDaily (c : Cycle) (reads : List (Int × Int × Option Rat)) (bounds : List Int) : List (Option Rat) :=
+  asFreqDaily (cleanBilling c (periodsW reads)) bounds
 
 /-- sub-daily pipeline of `_DailyData._compute_meter_value_df`: missing readings are dropped first -/
 def subDaily (reads : List (Int × Option Rat)) (bounds : List Int) : List (Option Rat) :=
